@@ -95,10 +95,16 @@ def run(tier, seed, rep):
         if o == "ret" and distinct:
             o2, pct = call(lambda: get_matched_intensity_percentage(ms, [float(p["inten"]) for p in peaks]))
             evs.append({**base, "tid": f"p{i}", "op": "pct", "out": o2, "res": fix(pct) if o2 == "ret" else [0, 0]})
+        mode1 = rnd.choice(["closest", "largest"])
         o3, ms1 = call(lambda: get_fragment_matches(mk(), [p["m8"] / 8.0 for p in peaks],
-                                                    [float(p["inten"]) for p in peaks], real_tol(tt, tol), tt,
-                                                    rnd.choice(["closest", "largest"])))
+                                                    [float(p["inten"]) for p in peaks], real_tol(tt, tol), tt, mode1))
+        evs.append({**base, "tid": f"g{i}", "op": "fragmatch1", "mode": mode1, "out": o3,
+                    "res": [{"id": m.fragment.end, "m8": int(round(m.mz * 8)), "inten": int(m.intensity)} for m in ms1]
+                    if o3 == "ret" else []})
         if o3 == "ret":
+            o5, cov1 = call(lambda: get_match_coverage(ms1))
+            evs.append({**base, "tid": f"d{i}", "op": "cov1", "n": n, "out": o5,
+                        "res": (cov1.get("+b", []) if o5 == "ret" else [])})
             o4, cov = call(lambda: get_match_coverage(ms1))
             evs.append({"k": "c17", "tid": f"c{i}", "op": "cov", "n": n, "out": o4,
                         "matchedEnds": [m.fragment.end for m in ms1],
